@@ -1,18 +1,6 @@
-#![allow(dead_code)]
-mod alloc;
-mod c01;
-mod c07;
-mod c08;
-mod c13;
-mod c14;
-mod glue;
-mod refcodec;
-mod refmsg;
-mod vgen;
-
 #[global_allocator]
-static ALLOC: alloc::Counting = alloc::Counting;
+static ALLOC: codec::alloc::Counting = codec::alloc::Counting;
 
 fn main() {
-    vcommon::main(&[&c01::DEF, &c07::DEF, &c08::DEF, &c13::DEF, &c14::DEF])
+    vcommon::main(&codec::defs())
 }
